@@ -82,7 +82,7 @@ Print Assumptions C09_constructors_safe.
 Theorem C09_helpers_dead : forall h l b cs, data l = Some b -> nth_error h b = Some (mkblock cs false) ->
   (forall i, list_get h l i = Unsafe UseAfterFree \/ list_get h l i = Unsafe OutOfBounds) /\
   (forall v, exists k, list_append h l v = Unsafe k) /\
-  (forall s, list_assign h l s false = Unsafe DoubleFree).
+  (forall s cs2, rep h s cs2 -> list_assign h l s false = Unsafe DoubleFree).
 Proof. exact helpers_dead. Qed.
 Print Assumptions C09_helpers_dead.
 
@@ -214,7 +214,8 @@ Print Assumptions C09_partial_nonvacuous.
    rotation, any permutation: plain pointer exchange through struct-copy temporaries): the witness below uses
    ring.append(ring[0]), ring.remove(ring[0]), a swap and a three-way rotation; CPython runs it for 5 passes. *)
 Example C09_partial_alias_tuple_nonvacuous :
-  single_owner ok2_setup ok2_body = true /\ exists pst, run_py ok2_setup ok2_body 5 = POk pst /\ p_live pst = 8.
+  value_ok ok2_setup [ok2_body; ok2_body; ok2_body; ok2_body; ok2_body] = true /\
+  exists pst, run_py ok2_setup ok2_body 5 = POk pst /\ p_live pst = 8.
 Proof. exact (conj ok2_guard ok2_python). Qed.
 Print Assumptions C09_partial_alias_tuple_nonvacuous.
 
@@ -224,64 +225,61 @@ Theorem C09_tuple_guard : forall decl xs rs, tuple_ok decl xs rs = true ->
 Proof. exact tuple_ok_spec. Qed.
 Print Assumptions C09_tuple_guard.
 
-(* ============================================================== refuted at full strength *)
+(* ============================================================== value semantics (Reduino fix: rule of five for __redu_list) *)
 
-(* def ident(xs): return xs     a = [1, 2, 3]; a = ident(a)  - fine in Python (a is a); the firmware runs
-   __redu_list_assign(a, ident(a)) whose source is a temporary struct copy sharing a's buffer: deleted, then read *)
-Theorem C09_assign_self_alias_refuted :
-  exists setup body n pst, run_py setup body n = POk pst /\ run_fw setup body n = Unsafe UseAfterFree.
-Proof. exact assign_self_alias_use_after_free. Qed.
-Print Assumptions C09_assign_self_alias_refuted.
+(* The struct owns its buffer: copies are deep, temporaries and by-value parameters are destroyed, assignment releases
+   what it replaces.  For EVERY list program whose names are declared before they are used - aliases `x = y`, by-value
+   parameters the callee mutates, lists returned by functions (`a = ident(a)` included), lists first assigned in the main
+   loop, re-assignment from literals / comprehensions, ANY tuple assignment - and EVERY history (pass k runs the
+   statements its run-time conditions select): the firmware either runs safely, and then every list variable owns a
+   distinct live block of exactly its size and NOTHING else is live (no leak), or stops at an out-of-bounds index
+   (Python's IndexError condition); never a use after free, never a double free.  Replaces C09_alias_refuted,
+   C09_alias_double_free_refuted, C09_byvalue_refuted, C09_assign_self_alias_refuted, C09_tuple_literal_leak_refuted,
+   C09_leak_comprehension_refuted, C09_leak_local_literal_refuted, C09_leak_reassign_refuted. *)
+Theorem C09_value_semantics_safe : forall setup bodies,
+  value_ok setup bodies = true ->
+  match run_fw_seq setup bodies with
+  | Safe st => wf_heap st /\ tight st
+  | Unsafe k => k = OutOfBounds
+  end.
+Proof. exact value_safe_fw_seq. Qed.
+Print Assumptions C09_value_semantics_safe.
 
-(* a = [1,2,3]; b = [4,5,6]   while True: a, b = [7,8,9], a   - the tuple assignment stores the temporaries with plain
-   struct assignments, b's previous buffer is never freed: one block leaked per pass, Python's live data constant *)
-Theorem C09_tuple_literal_leak_refuted : leaks tuple_leak_setup tuple_leak_body.
-Proof. exact tuple_literal_leak. Qed.
-Print Assumptions C09_tuple_literal_leak_refuted.
+(* the witnesses of the repaired findings: inside that guard, CPython and the firmware run 1 and 4 passes, heap usage
+   after pass 4 = heap usage after pass 1 *)
+Theorem C09_alias_repaired : repaired uaf_setup [LGet 0 0; LGet 1 0]%Z.
+Proof. exact alias_repaired. Qed.
+Print Assumptions C09_alias_repaired.
 
-(* a = [1,2,3]; b = a; a.append(4); b[0]  - fine in Python, use after free in the firmware
-   (`b = a;` copies the struct, append frees the shared buffer) *)
-Theorem C09_alias_refuted :
-  exists setup body n pst, run_py setup body n = POk pst /\ run_fw setup body n = Unsafe UseAfterFree.
-Proof. exact alias_use_after_free. Qed.
-Print Assumptions C09_alias_refuted.
+Theorem C09_alias_double_free_repaired : repaired dfree_setup [LGet 0 0; LGet 1 0]%Z.
+Proof. exact alias_double_free_repaired. Qed.
+Print Assumptions C09_alias_double_free_repaired.
 
-(* a = [1]; b = a; a.append(2); b = [5]  - the re-assignment deletes the stale buffer again *)
-Theorem C09_alias_double_free_refuted :
-  exists setup body n pst, run_py setup body n = POk pst /\ run_fw setup body n = Unsafe DoubleFree.
-Proof. exact alias_double_free. Qed.
-Print Assumptions C09_alias_double_free_refuted.
+Theorem C09_byvalue_repaired : repaired byval_setup [LCallAppend 0 2; LGet 0 0]%Z.
+Proof. exact byvalue_repaired. Qed.
+Print Assumptions C09_byvalue_repaired.
 
-(* def g(xs, v): xs.append(v); return xs[0]     a = [1]; g(a, 2); a[0]
-   - the by-value parameter is a struct copy; the callee's append frees the caller's buffer *)
-Theorem C09_byvalue_refuted :
-  exists setup body n pst, run_py setup body n = POk pst /\ run_fw setup body n = Unsafe UseAfterFree.
-Proof. exact byvalue_use_after_free. Qed.
-Print Assumptions C09_byvalue_refuted.
+Theorem C09_assign_self_alias_repaired : repaired ret_setup [LAssignRet 0 0; LGet 0 0]%Z.
+Proof. exact assign_self_alias_repaired. Qed.
+Print Assumptions C09_assign_self_alias_repaired.
 
-(* while True: t = [i*2 for i in range(3)]   - one block leaked per pass (no destructor) *)
-Theorem C09_leak_comprehension_refuted : leaks [] leak_comp_body.
-Proof. exact leak_comp_local. Qed.
-Print Assumptions C09_leak_comprehension_refuted.
+Theorem C09_tuple_literal_repaired : repaired tuple_leak_setup tuple_leak_body.
+Proof. exact tuple_literal_repaired. Qed.
+Print Assumptions C09_tuple_literal_repaired.
 
-(* ... and for EVERY number of passes n: after n passes n blocks (3n cells) are live in the firmware
-   while Python's live data is 3 elements from the first pass on *)
-Theorem C09_leak_comprehension_every_pass_refuted : forall n,
-  exists st pst, run_fw [] leak_comp_body n = Safe st /\ run_py [] leak_comp_body n = POk pst /\
-                 f_live_cells st = 3 * n /\ f_live_blocks st = n /\ (n >= 1 -> p_live pst = 3).
-Proof. exact leak_comp_local_all. Qed.
-Print Assumptions C09_leak_comprehension_every_pass_refuted.
+Theorem C09_leak_comprehension_repaired : repaired [] leak_comp_body.
+Proof. exact leak_comp_local_repaired. Qed.
+Print Assumptions C09_leak_comprehension_repaired.
 
-(* while True: t = [1,2,3] *)
-Theorem C09_leak_local_literal_refuted : leaks [] leak_lit_body.
-Proof. exact leak_lit_local. Qed.
-Print Assumptions C09_leak_local_literal_refuted.
+Theorem C09_leak_local_literal_repaired : repaired [] leak_lit_body.
+Proof. exact leak_lit_local_repaired. Qed.
+Print Assumptions C09_leak_local_literal_repaired.
 
-(* items = [1,2,3]   while True: items = [1,2,3]   - the temporary passed to
-   __redu_list_assign is never freed *)
-Theorem C09_leak_reassign_refuted : leaks leak_reassign_setup leak_reassign_body.
-Proof. exact leak_reassign. Qed.
-Print Assumptions C09_leak_reassign_refuted.
+Theorem C09_leak_reassign_repaired : repaired leak_reassign_setup leak_reassign_body.
+Proof. exact leak_reassign_repaired. Qed.
+Print Assumptions C09_leak_reassign_repaired.
+
+(* ============================================================== still refuted: copies where Python aliases *)
 
 (* a = [1]; c = [2]; c = a   while True: c.append(5); a.remove(5)
    - `c = a` on a declared list is a deep copy in the firmware and an alias in Python: memory-safe, but
@@ -296,14 +294,6 @@ Theorem C09_clone_out_of_bounds_refuted :
   exists n pst, run_py clone_setup clone_oob_body n = POk pst /\ run_fw clone_setup clone_oob_body n = Unsafe OutOfBounds.
 Proof. exact clone_out_of_bounds. Qed.
 Print Assumptions C09_clone_out_of_bounds_refuted.
-
-(* ... for EVERY number of passes n: 3 + 3n cells are live after n passes while Python's live data is 3 *)
-Theorem C09_leak_reassign_every_pass_refuted : forall n,
-  exists st pst, run_fw leak_reassign_setup leak_reassign_body n = Safe st /\
-                 run_py leak_reassign_setup leak_reassign_body n = POk pst /\
-                 f_live_cells st = 3 + 3 * n /\ p_live pst = 3.
-Proof. exact leak_reassign_all. Qed.
-Print Assumptions C09_leak_reassign_every_pass_refuted.
 
 (* ============================================================== len() folded at transpile time *)
 
@@ -369,7 +359,7 @@ Proof. exact stale_pass_repaired. Qed.
 Print Assumptions C09_stale_len_pass_repaired.
 
 (* a = [1, 2, 3]; b = [4]   while True: (if c > 0: a, b = b, a); mon.write(a[len(a) - 1])   c = 1, 0 *)
-Theorem C09_stale_len_rebind_repaired : len_ok stale_rebind_setup stale_rebind_body = true /\
+Theorem C09_stale_len_rebind_repaired :
   exists pst st, run_py_t stale_rebind_setup stale_rebind_body [1; 0]%Z = POk pst /\
                  run_fw_t stale_rebind_setup stale_rebind_body [1; 0]%Z = Safe st /\ f_live_cells st = p_live pst.
 Proof. exact stale_rebind_repaired. Qed.
